@@ -8,10 +8,17 @@ class HarnessError(Exception):
     pass
 
 
+def _limit_memory():
+    # a runner that allocates without bound (seen: a JSON writer looping after an integer underflow in a release build)
+    # must die by itself, not take the machine's memory with it
+    import resource
+    resource.setrlimit(resource.RLIMIT_AS, (8 << 30, 8 << 30))
+
+
 class Runner:
     def __init__(self, path, record=None):
         self.path = path
-        self.p = subprocess.Popen([path], stdin=subprocess.PIPE, stdout=subprocess.PIPE,
+        self.p = subprocess.Popen([path], stdin=subprocess.PIPE, stdout=subprocess.PIPE, preexec_fn=_limit_memory,
                                   stderr=subprocess.DEVNULL, text=True, bufsize=1 << 20)
         self.n = 0
         self.record = record
